@@ -31,6 +31,7 @@ ELEMENTS = {
     "polygon": ('<polygon id="f" points="1,1 8,3 4,4"%s/>', None),
     "g": ('<g id="f"%s><rect id="fc" x="1" y="1" width="2" height="2"/></g>', None),
     "svg": ('<svg id="f" x="1" y="1" width="20" height="20"%s><rect id="fc" x="1" y="1" width="2" height="2"/></svg>', None),
+    "svgvb": ('<svg id="f" x="1" y="1" width="20" height="20" viewBox="0 0 10 10"%s><rect id="fc" x="1" y="1" width="2" height="2"/></svg>', None),
     "use": ('<use id="f" href="#b1" x="3" y="3"%s/>', None),
     "text": ('<text id="f" x="1" y="1"%s>hi</text>', None),
     "image": ('<image id="f" x="1" y="1" width="5" height="5"%s/>', None),
@@ -187,13 +188,13 @@ ATTR_ELEMS = {
     "stroke": ["path", "line", "g"],
     "stroke-width": ["path", "rect", "g", "svg", "text"],
     "fill-opacity": ["rect", "g"],
-    "x": ["rect", "svg", "use", "text", "image"],
-    "width": ["rect", "svg", "use", "image"],
+    "x": ["rect", "svg", "svgvb", "use", "text", "image"],
+    "width": ["rect", "svg", "svgvb", "use", "image"],
     "r": ["circle"],
     "rx": ["rect", "ellipse"],
     "points": ["polyline", "polygon"],
     "viewBox": ["svg"],
-    "preserveAspectRatio": ["svg", "image"],
+    "preserveAspectRatio": ["svgvb", "image"],
     "d": ["path"],
     "style": ["path", "g", "rect"],
     "href": ["use", "image"],
